@@ -24,7 +24,7 @@ def parseWs (s : String) : Option (List WOut) :=
 
 def parseField (s : String) : Option RangeField :=
   if s == "_" then some .empty
-  else if s == "M" then some .malformed
+  else if s == "M" || s.startsWith "M@" then some .malformed
   else match s.splitOn "@" with
     | [t, l] => (parseCidr t).map (fun c => .ok c l)
     | _ => none
@@ -57,9 +57,11 @@ def parseEv (line : String) : Option Ev :=
     let b ← if s2 == "-" then some [] else (parseCidr s2).map (fun c => [c])
     let w ← parseWs ws
     pure (.boot (a ++ b) w)
-  | ["nodeAdd", n, ls, cs] => do
-    let c ← parseCidrs cs
-    pure (.nodeAdd ⟨n, parseLabels ls, c, false⟩)
+  | ["nodeAdd", n, ls, cs] =>
+    if cs.startsWith "?" then some (.nodeAdd ⟨n, parseLabels ls, [], false, true⟩)
+    else do
+      let c ← parseCidrs cs
+      pure (.nodeAdd ⟨n, parseLabels ls, c, false, false⟩)
   | ["nodeDel", n] => some (.nodeDel n)
   | ["nodeLabels", n, ls] => some (.nodeLabels n (parseLabels ls))
   | ["nodeDeleting", n] => some (.nodeDeleting n)
@@ -71,6 +73,8 @@ def parseEv (line : String) : Option Ev :=
     pure (.ccAdd n ⟨s, h, a, b⟩)
   | ["ccDel", n] => some (.ccDel n)
   | ["ccGen", n, g] => g.toNat?.map (fun k => .ccGen n k)
+  | ["ccAddFin", n, f] => some (.ccAddFin n f)
+  | ["nodeSetCIDRs", n, cs] => (parseCidrs cs).map (fun c => .nodeSetCIDRs n c)
   | ["deliverNode", n, t] => some (.deliverNode n (t == "1"))
   | ["deliverCC", n] => some (.deliverCC n)
   | ["procNode", n, r, ws] => (parseWs ws).map (fun w => .procNode n (r == "1") w)
@@ -97,7 +101,7 @@ def labelsStr (ls : Labels) : String :=
   joinWith "," ((sortNames (ls.map (·.1))).map (fun k => k ++ "=" ++ (Labels.get ls k).getD ""))
 
 def nodeStr (n : NodeObj) : String :=
-  s!"{n.name}\{{labelsStr n.labels}}[{cidrsStr n.cidrs}]{if n.deleting then "D" else ""}"
+  s!"{n.name}\{{labelsStr n.labels}}[{if n.junk then "?" else cidrsStr n.cidrs}]{if n.deleting then "D" else ""}"
 
 def ccObjStr (o : CCObj) : String :=
   s!"{o.name}:{joinWith "+" o.finalizers}:{if o.deleting then 1 else 0}:{o.generation}:{o.rv}"
@@ -115,6 +119,7 @@ def obsStr (o : Obs) (s : Sys) : String :=
 
 def histStep (s : Sys) (line : String) : Sys × String :=
   if line.startsWith "hist " then (Sys.init, "hist")
+  else if line.startsWith "mark " then (s, line)
   else match parseEv line with
     | none => (s, "bad-op")
     | some e =>
